@@ -72,16 +72,18 @@ impl BufferParser for Parser {
                     }
                     3 => {
                         caret.pos.y = max(0, caret.pos.y - 1);
+                        buf.terminal_state.limit_caret_pos(buf, caret);
                     }
                     4 => {
                         caret.pos.y += 1;
+                        buf.terminal_state.limit_caret_pos(buf, caret);
                     }
 
                     5 => {
                         caret.pos.x = max(0, caret.pos.x - 1);
                     }
                     6 => {
-                        caret.pos.x = min(79, caret.pos.x + 1);
+                        caret.pos.x = min(buf.terminal_state.get_width() - 1, caret.pos.x + 1);
                     }
                     7 => {
                         return Err(ParserError::Description("todo: avt cleareol").into());
@@ -134,6 +136,7 @@ impl BufferParser for Parser {
                 2 => {
                     caret.pos.x = self.avt_repeat_char as i32;
                     caret.pos.y = ch as i32;
+                    buf.terminal_state.limit_caret_pos(buf, caret);
 
                     self.avt_state = AvtReadState::Chars;
                     Ok(CallbackAction::NoUpdate)
